@@ -234,18 +234,11 @@ Fixpoint expanded_ok (us : list uscript) (uniq : list N) (j : nat) (ows : list N
   | _, _ => false
   end.
 
-(* activeAppendItems against its specification.  0 = as specified; 2 = the
-   structural signature of C29-K1: the batch starts with two inactive items and
-   the only deviation is that item 0 is ALSO returned as active, ahead of the
-   live items; 1 = any other deviation. *)
-Definition active_monitor (items : list psend) (o : coal_obs) : N :=
+(* activeAppendItems against its specification *)
+Definition active_monitor (items : list psend) (o : coal_obs) : bool :=
   let sp := activeAppendItems_spec items in
-  if list_eqb ocomp_eqb (co_inactive o) (map ocomp_of (snd sp)) then
-    if nlist_eqb (co_active o) (map ps_index (fst sp)) then 0
-    else if leading_dead2 items
-            && nlist_eqb (co_active o) (map ps_index (firstn 1 items ++ fst sp))
-         then 2 else 1
-  else 1.
+  list_eqb ocomp_eqb (co_inactive o) (map ocomp_of (snd sp))
+  && nlist_eqb (co_active o) (map ps_index (fst sp)).
 
 Definition coal_monitor (items : list psend) (us : list uscript) (rs : list ares) (o : coal_obs) : bool :=
   let n := length items in
@@ -405,19 +398,11 @@ Definition log_of (h : hist) (ch : N) : list prec :=
 
 Definition find_rec (log : list prec) (sq : N) : option prec := find (fun r => pr_seq r =? sq) log.
 
-(* H1: every item of every call has exactly one result, in its own position.
-   0 = holds; 2 = the signature of C29-K1 on a run of appendEffect (the call's
-   batch starts with two inactive items, item 0 has exactly two completions and
-   every other item exactly one); 1 = any other deviation. *)
-Definition call_code (sends : list hsend) (lead2 : N -> bool) (c : hcall) : N :=
+(* H1: every item of every call has exactly one result, in its own position *)
+Definition call_ok (sends : list hsend) (c : hcall) : bool :=
   let ps := map h_pos (filter (fun s => h_call s =? hc_id c) sends) in
-  let n := N.to_nat (hc_items c) in
-  if (hc_items c =? hc_results c) && (N.of_nat (length ps) =? hc_items c)
-     && forallb (fun i => (count_occ N.eq_dec ps i =? 1)%nat) (nseq n)
-  then 0
-  else if lead2 (hc_id c) && (hc_results c =? hc_items c + 1) && (N.of_nat (length ps) =? hc_items c + 1)
-          && forallb (fun i => Nat.eqb (count_occ N.eq_dec ps i) (if i =? 0 then 2%nat else 1%nat)) (nseq n)
-       then 2 else 1.
+  (hc_items c =? hc_results c) && (N.of_nat (length ps) =? hc_items c)
+  && forallb (fun i => (count_occ N.eq_dec ps i =? 1)%nat) (nseq (N.to_nat (hc_items c))).
 
 (* H2: a successful result names a record of the channel's log with the same
    message id, sender and client number; the record is the send's own (then the
@@ -466,7 +451,8 @@ Definition pair_code (h : hist) (a b : hsend) : N :=
     else if stored_twice h a then 3 else 1
   else 0.
 
-(* worst code of a list: 1 dominates, then the smallest finding code *)
+(* worst code of a list: 1 (violation) dominates, then the smallest finding code.
+   Code 2 is not used (C29-K1, activeAppendItems, was repaired in /repo). *)
 Definition join_code (x y : N) : N :=
   if (x =? 1) || (y =? 1) then 1
   else if x =? 0 then y else if y =? 0 then x else N.min x y.
@@ -478,13 +464,11 @@ Fixpoint all_pairs (h : hist) (l : list hsend) : N :=
                         (all_pairs h r)
   end.
 
-Definition hist_monitor_with (lead2 : N -> bool) (h : hist) : N :=
-  let c1 := fold_left (fun acc c => join_code acc (call_code (hi_sends h) lead2 c)) (hi_calls h) 0 in
+Definition hist_monitor (h : hist) : N :=
+  let c1 := if forallb (call_ok (hi_sends h)) (hi_calls h) then 0 else 1 in
   let c2 := if forallb (send_ok h) (hi_sends h) then 0 else 1 in
   let c3 := if hi_ordered h then all_pairs h (filter (fresh h) (hi_sends h)) else 0 in
   join_code c1 (join_code c2 c3).
-
-Definition hist_monitor (h : hist) : N := hist_monitor_with (fun _ => false) h.
 
 (* the store contract the model assumes of the port: sequences 1,2,3,... and no
    two records with the same sender + client number *)
@@ -541,9 +525,8 @@ Definition C29_mismatch (c : c29_case) : bool :=
 
 Definition C29_monitor (c : c29_case) : N :=
   match c with
-  | C29Coalesce items us rs o => if coal_monitor items us rs o then active_monitor items o else 1
+  | C29Coalesce items us rs o => if coal_monitor items us rs o && active_monitor items o then 0 else 1
   | C29Writer _ _ ops obs => if writer_monitor ops obs then 0 else 1
-  | C29Effect _ _ ops obs plog _ =>
-      hist_monitor_with (fun j => leading_dead2 (nth (N.to_nat j) ops [])) (effect_hist ops obs plog)
+  | C29Effect _ _ ops obs plog _ => hist_monitor (effect_hist ops obs plog)
   | C29Hist ordered calls sends logs => hist_monitor (Hist ordered calls sends logs)
   end.
